@@ -7,7 +7,7 @@ import PoolModel.Sha256
   `de <hex>`         → outcome of `DeserializeTicket`
   `dstr <hex>`       → outcome of `DecodeString` (hex of the string's bytes)
   `mutbin <mode> <hex>` / `mutstr <mode> <hex>` → one outcome character per enumerated variant
-  `sdb reset | add <ticket> | upd <ticket> | get <id> <key|~> | byid <id> | all` → the ticket store of
+  `sdb reset | add <ticket> | addbid <ticket> <nonce> | upd <ticket> | get <id> <key|~> | byid <id> | all` → the ticket store of
   clientdb/sidecar.go (state = the bucket) -/
 namespace Pool.C15
 open Pool.Dec Pool.Util
@@ -39,6 +39,13 @@ def drvStep (s : DrvSt) (args : List String) : DrvSt × String :=
       | .ok s' => (s', "ok -")
       | r => (s, fmtSRes (fun _ => "-") r)
     | none => (s, "bad-op")
+  | ["sdb", "addbid", t, n] =>
+    match parseTicket t, unhexN 32 n with
+    | some t, some n =>
+      match addSidecarWithBid s t n with
+      | .ok s' => (s', "ok -")
+      | r => (s, fmtSRes (fun _ => "-") r)
+    | _, _ => (s, "bad-op")
   | ["sdb", "upd", t] =>
     match parseTicket t with
     | some t =>
